@@ -1,7 +1,7 @@
 ------------------------------ MODULE MC_Entry ------------------------------
 EXTENDS Entry, Json
 
-CONSTANTS GenMode, GenDepth, MaxT, MaxEnters, MaxOpen, MaxN, IsoSets, HotSets, Inbounds, Ress, ArgC, AttC, DTMode
+CONSTANTS GenMode, GenDepth, MaxT, MaxEnters, MaxOpen, MaxN, IsoSets, HotSets, Inbounds, Ress, ArgC, AttC, DTMode, SysSets, LoadVals
 
 VARIABLES hist, cnt
 mcvars == <<evars, hist, cnt>>
@@ -16,6 +16,13 @@ IsoSetsSmall == { <<>>, <<IR("i1", "r1", 1)>>, <<IR("i1", "r1", 2)>>, <<IR("i1",
                   <<IR("i1", "r1", 1), IR("i2", "r2", 2)>> }
 HotSetsSmall == { <<>>, <<HR("h1", "r1", 0, "", 1, <<>>)>>, <<HR("h1", "r1", -1, "", 2, ("b" :> 1))>>,
                   <<HR("h1", "r1", 0, "k", 1, <<>>)>>, <<HR("h1", "r1", 1, "", 2, <<>>), HR("h2", "r1", 0, "", 1, ("a" :> 2))>> }
+SR(id, metric, num, den, strat) == [id |-> id, metric |-> metric, thr |-> <<num, den>>, strat |-> strat]
+SysNone == { <<>> }
+NoVals == {}
+SysSetsSmall == { <<SR("s1", "qps", 2, 1, "none")>>, <<SR("s1", "conc", 2, 1, "none")>>, <<SR("s1", "rt", 1, 1, "none")>>,
+                  <<SR("s1", "load", 1, 2, "none")>>, <<SR("s1", "load", 1, 2, "bbr")>>, <<SR("s1", "cpu", 1, 2, "bbr")>>,
+                  <<SR("s1", "conc", 3, 1, "none"), SR("s2", "qps", 3, 1, "none")>> }
+LoadValsSmall == { <<1, 4>>, <<1, 2>>, <<3, 4>> }
 IsoOnly == { <<IR("i1", "r1", 1)>>, <<IR("i1", "r1", 2), IR("i2", "r1", 3)>> }
 HotNone == { <<>> }
 IsoNone == { <<>> }
@@ -48,6 +55,12 @@ MCNext ==
     \/ /\ on /\ cnt = 2
        /\ \E rs \in HotSets : LET ev == [e |-> "load", fam |-> "hot", op |-> "all", t |-> now, rules |-> rs] IN
              Load(ev) /\ Log(ev) /\ cnt' = 3
+    \/ /\ on /\ cnt = 3 /\ SysSets # {<<>>} /\ sys = {}
+       /\ \E rs \in SysSets \ {<<>>} : LET ev == [e |-> "load", fam |-> "sys", op |-> "all", t |-> now, rules |-> rs] IN
+             Load(ev) /\ Log(ev) /\ cnt' = cnt
+    \/ /\ on /\ cnt >= 3 /\ (GenMode \/ DOMAIN nodes = {})
+       /\ \E v \in LoadVals : \E k \in {"sysload", "syscpu"} : LET ev == [e |-> k, t |-> now, v |-> v] IN
+             (IF k = "sysload" THEN sload # v ELSE scpu # v) /\ Adv(ev) /\ Log(ev) /\ cnt' = cnt
     \/ /\ on /\ cnt >= 3 /\ cnt < 3 + MaxEnters /\ Cardinality(DOMAIN open) < MaxOpen
        /\ \E ev \in EnterEvents : \E o \in Outcomes(ev) : Enter(ev, o) /\ Log(ev) /\ cnt' = cnt + 1
     \/ /\ on /\ cnt >= 3
@@ -66,6 +79,9 @@ NoArgs == { <<>> }
 Args3 == { <<"a">>, <<"b">>, <<"a", "b">> }
 BothB == {TRUE, FALSE}
 OnlyOut == {FALSE}
+OnlyIn == {TRUE}
+GoalSysBlocks == ~(\E r \in sys : SysTrip(r, now) /\ r.metric \in {"load", "cpu"} /\ r.strat = "bbr")
+GoalSysQps == ~(\E r \in sys : SysTrip(r, now) /\ r.metric = "qps")
 GoalIsoBlocks == ~(\E r \in iso : Node(r.res).conc = r.thr /\ r.thr > 0)
 GoalHotCounts == ~(\E id \in DOMAIN hotc : \E v \in DOMAIN hotc[id] : hotc[id][v] >= 2)
 GoalInboundMirrored == ~(INB \in DOMAIN nodes /\ nodes[INB].conc >= 1 /\ "r1" \in DOMAIN nodes /\ nodes["r1"].conc >= 2)
